@@ -24,6 +24,7 @@ import (
 	"os"
 
 	"github.com/polynetwork/poly/common"
+	"github.com/polynetwork/poly/common/verifhook"
 )
 
 // HashStore is an interface for persist hash
@@ -96,6 +97,7 @@ func (self *fileHashStore) Append(hash []common.Uint256) error {
 	for _, h := range hash {
 		buf = append(buf, h[:]...)
 	}
+	verifhook.Persist("hashfile.append")
 	_, err := self.file.Write(buf)
 	return err
 }
